@@ -161,3 +161,16 @@ reg('C08',
     'minimum cycle basis is unique (others counted as out of domain). Stereo marks in SMARTS are not covered by this check (C12 covers configuration).',
     'bounded exhaustive enumeration of primitives and primitive pairs x atom/bond environments on the real implementation vs reference attributes',
     'DESIGN.md s5 C08')
+
+reg('C01',
+    'For every molecule of D(<=5 atoms, <=1 deviation) (thorough <=6), every connected carbon skeleton with 1..4 rings on <=6 (thorough 7) atoms, and '
+    'stereo, radical, multi-component, isotopic, organometallic and alternating-ring families plus the corpus stride, all descriptions inside the '
+    'bound are enumerated: ALL atom numberings (n<=5/6) or the GEN family, all atom insertion orders and two bond orders through the API, every '
+    'traversal of the library random-order writer (choice-point explorer over the min/sorted calls that receive the random weight; unbounded for <=8 '
+    'atoms, <=1 deviation above), RDKit spellings over renumberings x roots x aromatic/Kekule, and every "which derived value is read first" order. '
+    'Each description must give the same canonical string, hash and == (after kekule+thiele normalisation where the text came from the other toolkit).',
+    'The two exclusions of the property are recognised independently on the input graph (vf/oracle/symmetry.py: orbits of the stereo-free automorphism '
+    'group): cases inside them are executed and counted as out of domain, never reported. Three monocyclic alternating annulenes are a known finding. '
+    'Molecules above the small scope are covered by the text families and corpus only.',
+    'bounded exhaustive enumeration of descriptions incl. stateless choice-point exploration of the random-order writer (deviation bounded)',
+    'DESIGN.md s3.4, s5 C01')
